@@ -2,6 +2,7 @@
 C07 — stop discipline: That's all, Rounds, Stand, stop-at-rounds; bells left at hand.
 -/
 import Wheatley.Props.C06
+import Wheatley.Lemmas.Cli
 namespace Wheatley.C07
 open Wheatley.C06
 
@@ -180,5 +181,13 @@ theorem setting_keeps_stand (b : Bot) (key : String) (v : SVal) :
     · split
       · cases toBool? v <;> exact ⟨rfl, rfl, rfl, rfl, rfl, rfl⟩
       · exact ⟨rfl, rfl, rfl, rfl, rfl, rfl⟩
+
+/-! ### The command line (`Model/Cli.lean`: `console_main`) -/
+
+/-- Stop-at-rounds is on exactly when `-s` or `-H` was given: handbell style is both switches. -/
+theorem cli_stop_at_rounds (c : Parse.Chars) (os : List Cli.Opt) (u : Option (List Char × List Char)) (cfg : Cli.Cfg)
+    (h : Cli.consoleMain c os u = .built cfg) :
+    cfg.sar = (decide (Cli.Opt.sar ∈ os) || decide (Cli.Opt.handbell ∈ os)) :=
+  (Cli.main_built c os u cfg h).2.1
 
 end Wheatley.C07
